@@ -751,8 +751,9 @@ func c08Shapes(maxRecs int) [][][]int {
 var c08Rel = []int{-1, 0, 1}
 
 // c08PartHistories enumerates every partition history with minRecs..maxRecs records: shape x record
-// timestamps x segment createdAt (x at most one batch with a lying maxTimestamp header).
-func c08PartHistories(minRecs, maxRecs int, lies bool, f func(c08Part) bool) {
+// timestamps x segment createdAt (x, for histories of <= liesMax records, at most one batch with a
+// lying maxTimestamp header).
+func c08PartHistories(minRecs, maxRecs, liesMax int, f func(c08Part) bool) {
 	for _, shape := range c08Shapes(maxRecs) {
 		n, nb := 0, 0
 		for _, sg := range shape {
@@ -798,7 +799,7 @@ func c08PartHistories(minRecs, maxRecs int, lies bool, f func(c08Part) bool) {
 				stop = true
 				return false
 			}
-			if lies {
+			if n <= liesMax {
 				bi := 0
 				for _, sg := range honest.Segs {
 					for _, b := range sg.Batches {
@@ -830,8 +831,8 @@ func c08PartHistories(minRecs, maxRecs int, lies bool, f func(c08Part) bool) {
 }
 
 type c08Bounds struct {
-	FamA, FamB, FamC0, FamC1 int // record bounds per family
-	MaxDelFail               int
+	FamA, FamALies, FamB, FamBLies, FamC0, FamC1 int // record bounds per family
+	MaxDelFail                                   int
 }
 
 var c08BaseCfg = c08Cfg{FracUs: 0, Interval: 1, Start: 0}
@@ -840,7 +841,7 @@ var c08BaseCfg = c08Cfg{FracUs: 0, Interval: 1, Start: 0}
 func c08Histories(b c08Bounds, f func(c08Case) bool) {
 	ok := true
 	// family A: one partition, base configuration, no filter, lying headers included
-	c08PartHistories(1, b.FamA, true, func(p c08Part) bool {
+	c08PartHistories(1, b.FamA, b.FamALies, func(p c08Part) bool {
 		ok = f(c08Case{Cfg: c08BaseCfg, Parts: []c08Part{p}})
 		return ok
 	})
@@ -856,7 +857,7 @@ func c08Histories(b c08Bounds, f func(c08Case) bool) {
 					if cfg == c08BaseCfg && fl == nil {
 						continue // already in family A
 					}
-					c08PartHistories(1, b.FamB, true, func(p c08Part) bool {
+					c08PartHistories(1, b.FamB, b.FamBLies, func(p c08Part) bool {
 						ok = f(c08Case{Cfg: cfg, Parts: []c08Part{p}, Filter: fl})
 						return ok
 					})
@@ -869,9 +870,9 @@ func c08Histories(b c08Bounds, f func(c08Case) bool) {
 	}
 	// family C: two partitions (partition 0 may be empty), honest headers, every filter
 	var p1s []c08Part
-	c08PartHistories(1, b.FamC1, false, func(p c08Part) bool { p1s = append(p1s, p); return true })
+	c08PartHistories(1, b.FamC1, 0, func(p c08Part) bool { p1s = append(p1s, p); return true })
 	p0s := []c08Part{{}}
-	c08PartHistories(1, b.FamC0, false, func(p c08Part) bool { p0s = append(p0s, p); return true })
+	c08PartHistories(1, b.FamC0, 0, func(p c08Part) bool { p0s = append(p0s, p); return true })
 	for _, p0 := range p0s {
 		for _, p1 := range p1s {
 			for _, fl := range [][]int32{nil, {0}, {1}} {
@@ -938,9 +939,6 @@ func TestVerifC08(t *testing.T) {
 		"metadata side of the CLI (etcd topic creation / offsets) is not exercised; the check observes target S3 objects",
 		"a fault-free restore returning an error is not judged (statement is conditional on success); such cases are counted and cap exhaustiveness",
 	}
-	ctx := context.Background()
-	_ = ctx
-
 	// replay of a single case
 	var rc c08Case
 	if ok, err := vh.LoadReplay(&rc); ok {
@@ -954,8 +952,6 @@ func TestVerifC08(t *testing.T) {
 		r := c08Run(src, &rc, rc.Fault)
 		rep.Eval(1)
 		rep.Outcome(r.sig, r.nontrivial)
-		rep.Outcome("replay", true)
-		rep.Outcome("replay2", true)
 		rep.Sample(map[string]any{"case": rc, "outcome": r.sig})
 		for _, p := range r.probs {
 			rep.Violation(p.Key, p.Detail, rc)
@@ -963,14 +959,17 @@ func TestVerifC08(t *testing.T) {
 		return
 	}
 
-	b := c08Bounds{FamA: 4, FamB: 3, FamC0: 2, FamC1: 2, MaxDelFail: 1}
+	b := c08Bounds{FamA: 4, FamALies: 3, FamB: 3, FamBLies: 2, FamC0: 2, FamC1: 2, MaxDelFail: 1}
 	if vh.Thorough() {
-		b = c08Bounds{FamA: 5, FamB: 4, FamC0: 3, FamC1: 2, MaxDelFail: 2}
+		b = c08Bounds{FamA: 5, FamALies: 4, FamB: 4, FamBLies: 3, FamC0: 3, FamC1: 2, MaxDelFail: 2}
 	}
-	rep.SetInfo("records_per_partition_max", map[string]int{"familyA_single_partition_base_cfg": b.FamA, "familyB_single_partition_all_cfg_x_filters": b.FamB, "familyC_two_partitions_p0": b.FamC0, "familyC_two_partitions_p1": b.FamC1})
+	rep.SetInfo("records_per_partition_max", map[string]int{
+		"familyA_single_partition_base_cfg_honest": b.FamA, "familyA_with_one_lying_header": b.FamALies,
+		"familyB_single_partition_all_cfg_x_filters_honest": b.FamB, "familyB_with_one_lying_header": b.FamBLies,
+		"familyC_two_partitions_p0_honest": b.FamC0, "familyC_two_partitions_p1_honest": b.FamC1})
 	rep.SetInfo("layout", "<=3 segments x <=2 batches x <=3 records per partition")
 	rep.SetInfo("timestamps", "segment createdAt and every record timestamp in {T-1,T,T+1} ms; T in {exact ms, +500us}")
-	rep.SetInfo("lying_header", "at most one batch per history with maxTimestamp header in {T-1,T,T+1} != true maximum (families A,B)")
+	rep.SetInfo("lying_header", "at most one batch per history with maxTimestamp header in {T-1,T,T+1} != true maximum (families A,B up to the stated record bound)")
 	rep.SetInfo("faults", fmt.Sprintf("every single failing copy call (List/GetRange/Get/GetIndex/PutSegment/PutIndex; puts also error-after-write) x every subset of <=%d failing clean-up deletes", b.MaxDelFail))
 	rep.SetInfo("secondary", "index interval {1,2,100}, start offset {0,5}, filter {none,{0},{1}}")
 
@@ -1033,7 +1032,7 @@ func TestVerifC08(t *testing.T) {
 					if !seen[r.sig] {
 						seen[r.sig] = true
 						rep.Outcome(r.sig, r.nontrivial)
-						if rep.WantSample() && r.nontrivial && (f.Call >= 0 || len(seen)%7 == 0) {
+						if r.nontrivial && len(seen)%11 == 3 && rep.WantSample() {
 							cc := c
 							cc.Fault = f
 							rep.Sample(map[string]any{"case": cc, "outcome": r.sig})
